@@ -172,27 +172,37 @@ def writer(ctx, cfg, P, f, cursor_arg, src_arg):
     key = ('writer', cfg, f.name)
     C = _cache(ctx)
     if key in C: return C[key]
-    args = [('u',)] * len(f.params)
-    args[cursor_arg] = ('p', 'cursor', 0); args[src_arg] = ('p', 'T', 0)
-    ex = SA.Explorer(P, sat=None, max_states=20000, max_seconds=20, exact=True)
-    st = SA.State()
-    st.tapes = {'T': SA.Tape('T', SA.alphabet_for(P, [f.name], eq=(0,)), maxlen=WRITER_MAXLEN)}
-    st.mem = {'cursor': {'#size': 8, 0: ('p', 'out', 0)}, 'out': {'#size': 1 << 20}}
-    st.mon = SA.WriterMonitor()
-    st.frames = [SA.Frame(f, list(args))]
-    bad = []
-    def on_ret(s_, ret, bad=bad):
-        m = s_.mon
-        cur = s_.mem['cursor'].get(0)
-        if m.len is None: bad.append({'problem': 'returns before reaching the end of the source string', 'string_by_class': SA.witness(s_)['T'][:80]})
-        elif m.ncopied != m.len or cur != ('p', 'out', m.len):
-            bad.append({'problem': 'source of length %d: %d byte(s) copied, cursor left at %s' % (m.len, m.ncopied, cur), 'string_by_class': SA.witness(s_)['T'][:80]})
-    try:
-        ex.run(st, on_ret)
-        r = Result('ok' if not bad else 'bad', ex=ex, bad=bad)
-    except SA.Found as e:
-        r = Result('found', ex=ex, exc=e)
-    except SA.Imprecise as e:
-        r = Result('imprecise', ex=ex, why=str(e))
+    idx_form = isinstance(cursor_arg, tuple)
+    r = None
+    for base in ((0, 3) if idx_form else (0,)):
+        # (index form `new_len = put(buf, len, src)`: decided for the start lengths 0 and 3; the function uses the length only as index and counter)
+        args = [('u',)] * len(f.params)
+        args[src_arg] = ('p', 'T', 0)
+        if idx_form:
+            args[cursor_arg[1]] = ('p', 'out', 0); args[cursor_arg[2]] = SA.C(base, f.params[cursor_arg[2]].get('bits') or 64)
+        else:
+            args[cursor_arg] = ('p', 'cursor', 0)
+        ex = SA.Explorer(P, sat=None, max_states=20000, max_seconds=20, exact=True)
+        st = SA.State()
+        st.tapes = {'T': SA.Tape('T', SA.alphabet_for(P, [f.name], eq=(0,)), maxlen=WRITER_MAXLEN)}
+        st.mem = {'cursor': {'#size': 8, 0: ('p', 'out', 0)}, 'out': {'#size': 1 << 20}}
+        st.mon = SA.WriterMonitor(); st.mon.base = base
+        st.frames = [SA.Frame(f, list(args))]
+        bad = []
+        def on_ret(s_, ret, bad=bad, base=base):
+            m = s_.mon
+            if idx_form: cur = ('p', 'out', SA.sval(ret[1], ret[2])) if ret and ret[0] == 'c' else None
+            else: cur = s_.mem['cursor'].get(0)
+            if m.len is None: bad.append({'problem': 'returns before reaching the end of the source string', 'string_by_class': SA.witness(s_)['T'][:80]})
+            elif m.ncopied != m.len or cur != ('p', 'out', base + m.len):
+                bad.append({'problem': 'source of length %d: %d byte(s) copied, cursor / returned length left at %s' % (m.len, m.ncopied, cur), 'string_by_class': SA.witness(s_)['T'][:80]})
+        try:
+            ex.run(st, on_ret)
+            r = Result('ok' if not bad else 'bad', ex=ex, bad=bad)
+        except SA.Found as e:
+            r = Result('found', ex=ex, exc=e)
+        except SA.Imprecise as e:
+            r = Result('imprecise', ex=ex, why=str(e))
+        if r.status != 'ok': break
     C[key] = r
     return r
